@@ -334,7 +334,7 @@ func genItem(r *rng, depth int, out *[]byte, tagged bool) {
 		if k == 11 {
 			major = 0x60
 		}
-		n := []int{0, 1, 3, 23, 24, 33}[r.intn(6)]
+		n := []int{0, 1, 3, 23, 24, 33, 31, 32, 64}[r.intn(9)]
 		*out = append(*out, headBytes(major, uint64(n), randWidth(r, uint64(n)))...)
 		for i := 0; i < n; i++ {
 			*out = append(*out, byte(r.next()))
@@ -345,8 +345,15 @@ func genItem(r *rng, depth int, out *[]byte, tagged bool) {
 			major = 0x60
 		}
 		*out = append(*out, major|0x1f)
-		for c := r.intn(4); c > 0; c-- {
+		nh, big := r.intn(4), r.chance(1, 3)
+		if big {
+			nh = 2 + r.intn(10) // many hunks whose total outgrows any initial accumulation buffer, several times over
+		}
+		for c := nh; c > 0; c-- {
 			n := r.intn(4)
+			if big {
+				n = []int{0, 1, 2, 5, 7, 10, 15, 16, 17, 40}[r.intn(10)]
+			}
 			*out = append(*out, headBytes(major, uint64(n), randWidth(r, uint64(n)))...)
 			for i := 0; i < n; i++ {
 				*out = append(*out, byte(r.next()))
@@ -361,6 +368,20 @@ func genCborDec(tier string, seed uint64) {
 	for _, hx := range []string{"c1f7", "d84df7", "82c1f701", "a1616bc1f7", "9fc1f7ff", "f7", "81f7", "c1f6"} {
 		emit("cbordec 1 %s", hx)
 		emit("cbordec 0 %s", hx)
+	}
+	// 0a. strings around the sizes of the reader's recycled scratch space, FOLLOWED in the same item by something whose
+	//     decoding uses that space again (a token handed out earlier must keep its bytes)
+	for _, major := range []byte{0x40, 0x60} {
+		for n := 28; n <= 36; n++ {
+			str := append(headBytes(major, uint64(n), 0), bytes.Repeat([]byte{0x41 + byte(n%8)}, n)...)
+			for _, next := range []string{"190102", "1a01020304", "1b0102030405060708", "fb400921fb54442d18", "fa40490fdb", "f93c00", "6568656c6c6f", "4401020304",
+				"5820" + strings.Repeat("07", 32), "7820" + strings.Repeat("62", 32), "c11a514b67b0", "3903e7", "5f4201024103ff"} {
+				nb, _ := hex.DecodeString(next)
+				emitDec(append(append([]byte{0x82}, str...), nb...))
+				emitDec(append(append(append([]byte{0xa2, 0x61, 0x61}, str...), 0x61, 0x62), nb...))
+				emitDec(append(append(append([]byte{0x9f}, str...), nb...), 0xff))
+			}
+		}
 	}
 	// 0. large definite strings, whole and cut short at several points (bulk reads past the reader's first buffer sizes)
 	for _, major := range []byte{0x40, 0x60} {
